@@ -12,10 +12,11 @@ func acceptorSelfTest() string {
 	q := Script{Op: "query", End: "ok", Gate: -1, Rel: -1}
 	s := Script{Op: "subscription", N: 1, End: "hold", Gate: -1, Rel: -1}
 	type tc struct {
-		name   string
-		c      Case
-		h      []event
-		reject string // substring of the expected violation; "" = must be accepted
+		name    string
+		c       Case
+		h       []event
+		reject  string // substring of the expected violation; "" = must be accepted
+		finding string // if set: the recogniser verdict the first violation must carry
 	}
 	R := func(m int, id string) event { return event{K: evR, M: m, ID: id} }
 	W := func(typ, id, payload string) event { return event{K: evW, M: -1, Type: typ, ID: id, Payload: payload} }
@@ -30,38 +31,42 @@ func acceptorSelfTest() string {
 	hookCase := Case{Proto: protoTWS, Hook: true, Msgs: []Msg{{K: "init"}, {K: "sub", ID: "1", X: &q, Refuse: true}, sub("1", q)}}
 	okQ := []event{RQ, R(0, ""), ack, RQ, R(1, "1"), RQ, X(evXGET, 1), X(evXS, 1), XE(1, 0), X(evXR, 1), W("next", "1", resultDoc(1, 0)), W("complete", "1", ""), X(evXP, 1), EOF}
 	cases := []tc{
-		{"clean query", initSubQ, okQ, ""},
-		{"clean subscription with client complete", initSubS, []event{RQ, R(0, ""), ack, RQ, R(1, "1"), RQ, X(evXS, 1), XE(1, 0), W("next", "1", resultDoc(1, 0)), X(evXHOLD, 1), R(2, "1"), W("complete", "1", ""), RQ, X(evXR, 1), X(evXP, 1), EOF}, ""},
-		{"missing terminal", initSubQ, []event{RQ, R(0, ""), ack, RQ, R(1, "1"), RQ, X(evXS, 1), XE(1, 0), X(evXR, 1), W("next", "1", resultDoc(1, 0)), X(evXP, 1), EOF}, "never got a terminal"},
-		{"missing data", initSubQ, []event{RQ, R(0, ""), ack, RQ, R(1, "1"), RQ, X(evXS, 1), XE(1, 0), X(evXR, 1), W("complete", "1", ""), X(evXP, 1), EOF}, "never delivered"},
-		{"two terminals", initSubQ, append(append([]event{}, okQ[:12]...), W("complete", "1", ""), X(evXP, 1), EOF), "second terminal"},
-		{"next after terminal", initSubQ, append(append([]event{}, okQ[:12]...), W("next", "1", resultDoc(1, 1)), X(evXP, 1), EOF), "after the server's"},
-		{"wrong payload", initSubQ, []event{RQ, R(0, ""), ack, RQ, R(1, "1"), RQ, X(evXS, 1), XE(1, 0), X(evXR, 1), W("next", "1", resultDoc(1, 1)), W("complete", "1", ""), X(evXP, 1), EOF}, "payload"},
-		{"result of an unknown executor", initSubQ, []event{RQ, R(0, ""), ack, RQ, R(1, "1"), RQ, X(evXS, 1), XE(1, 0), X(evXR, 1), W("next", "1", resultDoc(7, 0)), W("complete", "1", ""), X(evXP, 1), EOF}, "no started operation"},
-		{"untagged payload", initSubQ, []event{RQ, R(0, ""), ack, RQ, R(1, "1"), RQ, X(evXS, 1), XE(1, 0), X(evXR, 1), W("next", "1", `{"data":null}`), W("complete", "1", ""), X(evXP, 1), EOF}, "payload"},
-		{"next for foreign id", initSubQ, []event{RQ, R(0, ""), ack, RQ, R(1, "1"), RQ, X(evXS, 1), XE(1, 0), X(evXR, 1), W("next", "2", resultDoc(1, 0)), W("next", "1", resultDoc(1, 0)), W("complete", "1", ""), X(evXP, 1), EOF}, "is output of the operation"},
-		{"error for never-started id", initSubQ, []event{RQ, R(0, ""), ack, RQ, W("error", "2", "[]"), EOF}, "no operation was started"},
-		{"no ack", initSubQ, []event{RQ, R(0, ""), RQ, EOF}, "exactly one connection_ack"},
-		{"two acks", initSubQ, []event{RQ, R(0, ""), ack, ack, RQ, EOF}, "connection_ack"},
-		{"ack plus junk", initSubQ, []event{RQ, R(0, ""), ack, W("hello", "", ""), RQ, EOF}, "connection_ack only"},
-		{"sub before init runs", Case{Proto: protoTWS, Msgs: []Msg{sub("1", q)}}, []event{RQ, R(0, "1"), RQ, X(evXS, 0), XE(0, 0), X(evXR, 0), W("next", "1", resultDoc(0, 0)), W("complete", "1", ""), X(evXP, 0), EOF}, "4401"},
-		{"sub before init wrong code", Case{Proto: protoTWS, Msgs: []Msg{sub("1", q)}}, []event{RQ, R(0, "1"), C(4400)}, "must close with 4401"},
-		{"second init tolerated", Case{Proto: protoTWS, Msgs: []Msg{{K: "init"}, {K: "init"}}}, []event{RQ, R(0, ""), ack, RQ, R(1, ""), RQ, EOF}, "4429"},
-		{"unknown type tolerated", Case{Proto: protoTWS, Msgs: []Msg{{K: "init"}, {K: "unknown"}}}, []event{RQ, R(0, ""), ack, RQ, R(1, ""), RQ, EOF}, "4400"},
-		{"non-json tolerated", Case{Proto: protoTWS, Msgs: []Msg{{K: "nonjson"}}}, []event{RQ, R(0, ""), RQ, EOF}, "4400"},
-		{"duplicate id tolerated", Case{Proto: protoTWS, Msgs: []Msg{{K: "init"}, sub("1", s), sub("1", q)}}, []event{RQ, R(0, ""), ack, RQ, R(1, "1"), RQ, X(evXS, 1), XE(1, 0), W("next", "1", resultDoc(1, 0)), X(evXHOLD, 1), R(2, "1"), RQ, EOF}, "4409"},
-		{"close out of the blue", initSubQ, []event{RQ, R(0, ""), ack, RQ, C(4400)}, "no client message was being handled"},
-		{"close for ping", Case{Proto: protoTWS, Msgs: []Msg{{K: "init"}, {K: "ping"}}}, []event{RQ, R(0, ""), ack, RQ, R(1, ""), C(4400)}, "does not justify a close"},
-		{"foreign message type", initSubQ, []event{RQ, R(0, ""), ack, RQ, W("ka", "", ""), EOF}, "not a server message"},
-		{"accepted subscribe dropped", initSubQ, []event{RQ, R(0, ""), ack, RQ, R(1, "1"), RQ, EOF}, "no operation ever started"},
-		{"gws clean", Case{Proto: protoGWS, Msgs: []Msg{{K: "init"}, sub("1", q)}}, []event{RQ, R(0, ""), ack, RQ, R(1, "1"), RQ, X(evXS, 1), XE(1, 0), X(evXR, 1), W("data", "1", resultDoc(1, 0)), W("complete", "1", ""), X(evXP, 1), EOF}, ""},
-		{"gws transport-ws type", Case{Proto: protoGWS, Msgs: []Msg{{K: "init"}, sub("1", q)}}, []event{RQ, R(0, ""), ack, RQ, R(1, "1"), RQ, X(evXS, 1), XE(1, 0), X(evXR, 1), W("next", "1", resultDoc(1, 0)), W("complete", "1", ""), X(evXP, 1), EOF}, "not a server message"},
-		{"hook refusal, id re-used (clean)", hookCase, []event{RQ, R(0, ""), ack, RQ, R(1, "1"), W("error", "1", hookErrPayload), RQ, R(2, "1"), RQ, X(evXS, 2), XE(2, 0), X(evXR, 2), W("next", "1", resultDoc(2, 0)), W("complete", "1", ""), X(evXP, 2), EOF}, ""},
-		{"hook refusal leaves the id registered", hookCase, []event{RQ, R(0, ""), ack, RQ, R(1, "1"), W("error", "1", hookErrPayload), RQ, R(2, "1"), C(4409)}, "refused by the before-start hook), was refused"},
-		{"hook refusal unanswered", hookCase, []event{RQ, R(0, ""), ack, RQ, R(1, "1"), RQ, EOF}, "must be answered by exactly one error(1)"},
-		{"hook refusal answered twice", hookCase, []event{RQ, R(0, ""), ack, RQ, R(1, "1"), W("error", "1", hookErrPayload), W("error", "1", hookErrPayload), RQ, EOF}, "must be answered by exactly one error(1)"},
-		{"hook refusal closes", hookCase, []event{RQ, R(0, ""), ack, RQ, R(1, "1"), C(4409)}, "must be answered by error(1), but the server closed"},
-		{"panic", initSubQ, []event{RQ, R(0, ""), {K: evPANIC, M: -1, Raw: "boom"}}, "panicked"},
+		{"clean query", initSubQ, okQ, "", ""},
+		{"clean subscription with client complete", initSubS, []event{RQ, R(0, ""), ack, RQ, R(1, "1"), RQ, X(evXS, 1), XE(1, 0), W("next", "1", resultDoc(1, 0)), X(evXHOLD, 1), R(2, "1"), W("complete", "1", ""), RQ, X(evXR, 1), X(evXP, 1), EOF}, "", ""},
+		{"missing terminal", initSubQ, []event{RQ, R(0, ""), ack, RQ, R(1, "1"), RQ, X(evXS, 1), XE(1, 0), X(evXR, 1), W("next", "1", resultDoc(1, 0)), X(evXP, 1), EOF}, "never got a terminal", ""},
+		{"missing data", initSubQ, []event{RQ, R(0, ""), ack, RQ, R(1, "1"), RQ, X(evXS, 1), XE(1, 0), X(evXR, 1), W("complete", "1", ""), X(evXP, 1), EOF}, "never delivered", ""},
+		{"two terminals", initSubQ, append(append([]event{}, okQ[:12]...), W("complete", "1", ""), X(evXP, 1), EOF), "second terminal", ""},
+		{"next after terminal", initSubQ, append(append([]event{}, okQ[:12]...), W("next", "1", resultDoc(1, 1)), X(evXP, 1), EOF), "after the server's", ""},
+		{"wrong payload", initSubQ, []event{RQ, R(0, ""), ack, RQ, R(1, "1"), RQ, X(evXS, 1), XE(1, 0), X(evXR, 1), W("next", "1", resultDoc(1, 1)), W("complete", "1", ""), X(evXP, 1), EOF}, "payload", ""},
+		{"result of an unknown executor", initSubQ, []event{RQ, R(0, ""), ack, RQ, R(1, "1"), RQ, X(evXS, 1), XE(1, 0), X(evXR, 1), W("next", "1", resultDoc(7, 0)), W("complete", "1", ""), X(evXP, 1), EOF}, "no started operation", ""},
+		{"untagged payload", initSubQ, []event{RQ, R(0, ""), ack, RQ, R(1, "1"), RQ, X(evXS, 1), XE(1, 0), X(evXR, 1), W("next", "1", `{"data":null}`), W("complete", "1", ""), X(evXP, 1), EOF}, "payload", ""},
+		{"next for foreign id", initSubQ, []event{RQ, R(0, ""), ack, RQ, R(1, "1"), RQ, X(evXS, 1), XE(1, 0), X(evXR, 1), W("next", "2", resultDoc(1, 0)), W("next", "1", resultDoc(1, 0)), W("complete", "1", ""), X(evXP, 1), EOF}, "is output of the operation", ""},
+		{"error for never-started id", initSubQ, []event{RQ, R(0, ""), ack, RQ, W("error", "2", "[]"), EOF}, "no operation was started", ""},
+		{"no ack", initSubQ, []event{RQ, R(0, ""), RQ, EOF}, "exactly one connection_ack", ""},
+		{"two acks", initSubQ, []event{RQ, R(0, ""), ack, ack, RQ, EOF}, "connection_ack", ""},
+		{"ack plus junk", initSubQ, []event{RQ, R(0, ""), ack, W("hello", "", ""), RQ, EOF}, "connection_ack only", ""},
+		{"sub before init runs", Case{Proto: protoTWS, Msgs: []Msg{sub("1", q)}}, []event{RQ, R(0, "1"), RQ, X(evXS, 0), XE(0, 0), X(evXR, 0), W("next", "1", resultDoc(0, 0)), W("complete", "1", ""), X(evXP, 0), EOF}, "4401", ""},
+		{"sub before init wrong code", Case{Proto: protoTWS, Msgs: []Msg{sub("1", q)}}, []event{RQ, R(0, "1"), C(4400)}, "must close with 4401", ""},
+		{"second init tolerated", Case{Proto: protoTWS, Msgs: []Msg{{K: "init"}, {K: "init"}}}, []event{RQ, R(0, ""), ack, RQ, R(1, ""), RQ, EOF}, "4429", ""},
+		{"unknown type tolerated", Case{Proto: protoTWS, Msgs: []Msg{{K: "init"}, {K: "unknown"}}}, []event{RQ, R(0, ""), ack, RQ, R(1, ""), RQ, EOF}, "4400", ""},
+		{"non-json tolerated", Case{Proto: protoTWS, Msgs: []Msg{{K: "nonjson"}}}, []event{RQ, R(0, ""), RQ, EOF}, "4400", ""},
+		{"duplicate id tolerated", Case{Proto: protoTWS, Msgs: []Msg{{K: "init"}, sub("1", s), sub("1", q)}}, []event{RQ, R(0, ""), ack, RQ, R(1, "1"), RQ, X(evXS, 1), XE(1, 0), W("next", "1", resultDoc(1, 0)), X(evXHOLD, 1), R(2, "1"), RQ, EOF}, "4409", ""},
+		{"close out of the blue", initSubQ, []event{RQ, R(0, ""), ack, RQ, C(4400)}, "no client message was being handled", ""},
+		{"close for ping", Case{Proto: protoTWS, Msgs: []Msg{{K: "init"}, {K: "ping"}}}, []event{RQ, R(0, ""), ack, RQ, R(1, ""), C(4400)}, "does not justify a close", ""},
+		{"foreign message type", initSubQ, []event{RQ, R(0, ""), ack, RQ, W("ka", "", ""), EOF}, "not a server message", ""},
+		{"accepted subscribe dropped", initSubQ, []event{RQ, R(0, ""), ack, RQ, R(1, "1"), RQ, EOF}, "no operation ever started", ""},
+		{"gws clean", Case{Proto: protoGWS, Msgs: []Msg{{K: "init"}, sub("1", q)}}, []event{RQ, R(0, ""), ack, RQ, R(1, "1"), RQ, X(evXS, 1), XE(1, 0), X(evXR, 1), W("data", "1", resultDoc(1, 0)), W("complete", "1", ""), X(evXP, 1), EOF}, "", ""},
+		{"gws transport-ws type", Case{Proto: protoGWS, Msgs: []Msg{{K: "init"}, sub("1", q)}}, []event{RQ, R(0, ""), ack, RQ, R(1, "1"), RQ, X(evXS, 1), XE(1, 0), X(evXR, 1), W("next", "1", resultDoc(1, 0)), W("complete", "1", ""), X(evXP, 1), EOF}, "not a server message", ""},
+		{"hook refusal, id re-used (clean)", hookCase, []event{RQ, R(0, ""), ack, RQ, R(1, "1"), W("error", "1", hookErrPayload), RQ, R(2, "1"), RQ, X(evXS, 2), XE(2, 0), X(evXR, 2), W("next", "1", resultDoc(2, 0)), W("complete", "1", ""), X(evXP, 2), EOF}, "", ""},
+		{"hook refusal leaves the id registered", hookCase, []event{RQ, R(0, ""), ack, RQ, R(1, "1"), W("error", "1", hookErrPayload), RQ, R(2, "1"), C(4409)}, "refused by the before-start hook), was refused", ""},
+		{"hook refusal unanswered", hookCase, []event{RQ, R(0, ""), ack, RQ, R(1, "1"), RQ, EOF}, "must be answered by exactly one error(1)", ""},
+		{"hook refusal answered twice", hookCase, []event{RQ, R(0, ""), ack, RQ, R(1, "1"), W("error", "1", hookErrPayload), W("error", "1", hookErrPayload), RQ, EOF}, "must be answered by exactly one error(1)", ""},
+		{"hook refusal closes", hookCase, []event{RQ, R(0, ""), ack, RQ, R(1, "1"), C(4409)}, "must be answered by error(1), but the server closed", ""},
+		// recogniser narrowness: what the echo of a client complete is attributed to
+		{"stop echo for a finished query", Case{Proto: protoTWS, Msgs: []Msg{{K: "init"}, sub("1", q), {K: "complete", ID: "1"}}}, append(append([]event{}, okQ[:13]...), R(2, "1"), W("complete", "1", ""), RQ, EOF), "second terminal", fStop},
+		{"stop echo for a failed subscription", Case{Proto: protoTWS, Msgs: []Msg{{K: "init"}, sub("1", Script{Op: "subscription", End: "error", Gate: -1, Rel: -1}), {K: "complete", ID: "1"}}}, []event{RQ, R(0, ""), ack, RQ, R(1, "1"), RQ, X(evXS, 1), {K: evXR, M: 1, ID: "1", Err: true}, W("error", "1", `[{"message":"boom"}]`), R(2, "1"), W("complete", "1", ""), RQ, EOF}, "second terminal", fFailed},
+		{"stop echo for a finished query the engine still holds", Case{Proto: protoTWS, Msgs: []Msg{{K: "init"}, sub("1", q), {K: "complete", ID: "1"}}}, []event{RQ, R(0, ""), ack, RQ, R(1, "1"), RQ, X(evXS, 1), XE(1, 0), X(evXR, 1), W("next", "1", resultDoc(1, 0)), W("complete", "1", ""), R(2, "1"), W("complete", "1", ""), RQ, X(evXP, 1), EOF}, "second terminal", "-"},
+		{"panic", initSubQ, []event{RQ, R(0, ""), {K: evPANIC, M: -1, Raw: "boom"}}, "panicked", ""},
 	}
 	var fails []string
 	for _, t := range cases {
@@ -81,6 +86,14 @@ func acceptorSelfTest() string {
 			fails = append(fails, fmt.Sprintf("%s: clean history rejected: %s", t.name, joined))
 		case t.reject != "" && !strings.Contains(joined, t.reject):
 			fails = append(fails, fmt.Sprintf("%s: expected a violation containing %q, got %q", t.name, t.reject, joined))
+		case t.finding != "" && len(res.viols) > 0:
+			want := t.finding
+			if want == "-" {
+				want = ""
+			}
+			if got := res.viols[0].Finding; got != want {
+				fails = append(fails, fmt.Sprintf("%s: the violation must be attributed to %q, the recogniser says %q", t.name, want, got))
+			}
 		}
 	}
 	return strings.Join(fails, "\n")
